@@ -333,12 +333,16 @@ class Pair:
 
     def __init__(self, copts=None, sopts=None, compress=None, server_compress=None,
                  start=0.0, chooks=None, shooks=None, url="ws://localhost:9000",
-                 protocols=None, sprotocols=None):
-        self.envobj = new_env(start)
+                 protocols=None, sprotocols=None, sibling=None):
         E = envmod()
-        sc = compress if server_compress is None else server_compress
-        self.sf = make_factory("server", self.envobj, sopts, url, sprotocols or protocols, None, sc)
-        self.cf = make_factory("client", self.envobj, copts, url, protocols, None, compress)
+        if sibling is not None:
+            # a further connection between the SAME two factory objects
+            self.envobj, self.sf, self.cf = sibling.envobj, sibling.sf, sibling.cf
+        else:
+            self.envobj = new_env(start)
+            sc = compress if server_compress is None else server_compress
+            self.sf = make_factory("server", self.envobj, sopts, url, sprotocols or protocols, None, sc)
+            self.cf = make_factory("client", self.envobj, copts, url, protocols, None, compress)
         self.s = E.Conn(self.sf, True, self.envobj)
         self.c = E.Conn(self.cf, False, self.envobj)
         for conn, hooks in ((self.s, shooks), (self.c, chooks)):
